@@ -457,6 +457,37 @@ def brick_case(n_rows, cut_a, cut_b, strict, shift=0, kinds=("ka", "kb")):
                     ("b", kinds[1], gen.chunk_rows(b, [shift, cut_b + shift, end]))], strict)
 
 
+EPOCH_T0 = 1_700_000_000_000_000_137      # a real nanosecond-epoch time (> 2**53, int64-safe, not a multiple of 256)
+
+
+def shift_case(case, t0=EPOCH_T0):
+    """the same case with EVERY time (chunk starts / ends, row times / endtimes) moved by t0; lengths stay small"""
+    return dict(case, deps=[dict(d, chunks=[[s + t0, e + t0, [[t + t0, et + t0, k] for t, et, k in rows]] for s, e, rows in d["chunks"]])
+                            for d in case["deps"]])
+
+
+def every(it, step, n):
+    return list(itertools.islice(itertools.islice(it, 0, None, step), n))
+
+
+def epoch_cases(rng, scale):
+    """a representative subset of the other components, shifted to epoch scale: float64 arithmetic on a boundary
+    (invisible below 2**53) moves it by up to 256 ns there"""
+    base = []
+    base += every(exhaustive_two_kinds(3, 3, 1, False), 331, 150 * scale)         # two kinds, every cut set
+    base += every(exhaustive_two_kinds(2, 3, 1, True), 149, 120 * scale)          # zero-duration chunks, strict
+    base += every(exhaustive_two_kinds(2, 3, 0, True), 151, 100 * scale)          # zero-duration chunks, tolerant
+    base += every(exhaustive_unequal_ends(2, 3), 139, 140 * scale)                # unequal run ends, both orders / policies
+    base += every(exhaustive_one_kind(3, 3), 61, 70 * scale)                      # one kind in two chunkings
+    base += [random_case(rng, big=i % 3 == 0) for i in range(400 * scale)]        # 1-4 dependencies, 1-3 kinds
+    for n in (3, 5, 8, 12, 14, 16):
+        for strict in (0, 1):
+            for da in (1, 2, 3):
+                base.append(brick_case(n, 2 * (n - da), 2 * (n - da) + 1, strict))  # brick patterns incl. ten-pass ones
+    base += [malformed_case(rng) for _ in range(60 * scale)]
+    return [shift_case(c) for c in base]
+
+
 def malformed_case(rng):
     """outside the quantifier: inputs that do not start together, gaps / overlaps between chunks, empty iterators,
     same-kind dependencies with different rows, rows outside their chunk"""
@@ -558,6 +589,12 @@ def run(ctx):
     correspond_batched(ctx, "iter/malformed", cases,
                        rule="random cases damaged in one place: other start time, gap / swapped chunks, empty iterator, same-kind row-count mismatch, "
                             "row outside its chunk, unsorted rows (model / implementation agreement only)")
+
+    # 5. epoch-scale timestamps: every time shifted by 1.7e18 ns (the model uses unbounded Int and is translation invariant)
+    correspond_batched(ctx, "iter/epoch-scale", epoch_cases(rng, ctx.pick(1, 6)),
+                       rule=f"a subset of all components above (two kinds x cut sets, zero-duration chunks, unequal ends, one kind, random 1-4 "
+                            f"dependencies of 1-3 kinds, brick patterns, malformed) with every chunk start / end and row time / endtime shifted by "
+                            f"{EPOCH_T0} ns; lengths stay small; same oracle")
 
 
 def search(ctx):
